@@ -169,6 +169,7 @@ func load(repo string, overlay map[string][]byte) (*Ctx, error) {
 			c.NFuncs++
 		}
 	}
+	c.buildCobraModel() // also names the anonymous command handlers
 	return c, nil
 }
 
